@@ -69,4 +69,31 @@ theorem tol_offset_translation_invariant (q foot t : V3 ℝ) :
   simp only [GenRs.tol_offset, V3.sub, V3.add, V3.mk.injEq]
   refine ⟨by ring, by ring, by ring⟩
 
+/-! ### `Curve2::dist_to_point` (whole-body pattern): what it reports -/
+
+/-- the reported distance is the distance from the query to the point the projection found — no floor, no snapping to
+    zero below some tolerance: it is zero only when the root of the squared offset is -/
+theorem curve_dist_is_distance_to_the_foot (foot q : V2 ℝ) :
+    GenRs.curve_dist_value foot q = Real.sqrt ((foot.x - q.x) * (foot.x - q.x) + (foot.y - q.y) * (foot.y - q.y)) ∧
+    0 ≤ GenRs.curve_dist_value foot q := by
+  have e : GenRs.curve_dist_value foot q = Real.sqrt ((foot.x - q.x) * (foot.x - q.x) + (foot.y - q.y) * (foot.y - q.y)) := rfl
+  exact ⟨e, by rw [e]; exact Real.sqrt_nonneg _⟩
+
+/-- a query at a positive distance from its foot — however small — is reported at a positive distance -/
+theorem curve_dist_positive_off_the_foot (foot q : V2 ℝ) (h : foot ≠ q) : 0 < GenRs.curve_dist_value foot q := by
+  rw [(curve_dist_is_distance_to_the_foot foot q).1]
+  apply Real.sqrt_pos.mpr
+  have hne : foot.x - q.x ≠ 0 ∨ foot.y - q.y ≠ 0 := by
+    by_contra hc
+    push Not at hc
+    apply h
+    cases foot; cases q
+    simp only [V2.mk.injEq]
+    exact ⟨by linarith [hc.1], by linarith [hc.2]⟩
+  rcases hne with hx | hy
+  · have := mul_self_pos.mpr hx
+    nlinarith [mul_self_nonneg (foot.y - q.y)]
+  · have := mul_self_pos.mpr hy
+    nlinarith [mul_self_nonneg (foot.x - q.x)]
+
 end C02T
